@@ -229,6 +229,20 @@ CURATED = [
     "a(i) = x(i) + Y(i,k) + Z(i,k)",
     "a(i) = Y(i,k) * z(k) + W(i,k) * z(k)",
     "A(i,j) = B(i,j) + C(i,k) * D(k,j) + E(i,l) * F(l,j)",
+    # operands that bring several new indexes at once; float literal as the LEFT factor; a product
+    # containing a sum next to another additive term (zeroing one operand removes several leaves)
+    "a(i) = b(i) * C(j,k)",
+    "y(i) = A(i,j) * B(j,k,l)",
+    "a() = b(i) * C(i,j,k) * d(j) * e(k)",
+    "A(i,j) = 2.5 * B(i,j)",
+    "a(i) = 0.5 * b(i) * c(i)",
+    "a(i) = b(i) + 0.5 * c(i)",
+    "a(i) = (b(i) + c(i)) * d(i) + e(i)",
+    "a(i) = e(i) + (b(i) + c(i)) * d(i)",
+    "a(i) = (b(i) + c(i)) * d(i) - e(i)",
+    "A(i,j) = (B(i,j) + C(i,j)) * D(i,j) + E(i,j)",
+    "a(i) = b(i) * c(i) + d(i) * e(i)",
+    "a(i) = b(i) + 0.5 + 0.5",
     # product-of-sums class (K1b; judged in two steps)
     "a() = (b(i) + 2) * (c(i) + 3)",
     "a(i) = b(i) * (C(i,j) + d(i))",
